@@ -1373,6 +1373,12 @@ func (pc *PartitionContext) UpdateAllocation(alloc *objects.Allocation) (request
 			zap.String("appID", applicationID),
 			zap.String("allocationKey", allocationKey))
 
+		// the ask may hold a reservation made by the scheduler: it is placed now, on this node or on another one
+		if reservedNodeID := app.NodeReservedForAsk(allocationKey); reservedNodeID != "" {
+			if reservedNode := pc.GetNode(reservedNodeID); reservedNode != nil {
+				pc.unReserve(app, reservedNode, existing)
+			}
+		}
 		existing.SetNodeID(nodeID)
 		existing.SetBindTime(alloc.GetBindTime())
 		if _, err := app.AllocateAsk(allocationKey); err != nil {
